@@ -218,7 +218,7 @@ var contentLens = []int{0, 1, 2, 7, 8, 9, 15, 16, 17, 31, 32, 33, 63, 64, 65, 96
 
 // numMutations returns how many structural mutations mutateNode knows for a node.
 func numMutations(r nodeRef) int {
-	return len(replacements) + len(contentLens) + 14
+	return len(replacements) + len(contentLens) + 14 + 12
 }
 
 // mutateTree applies mutation k to node index ni of a clone of root and
@@ -310,6 +310,51 @@ func mutateTree(root *node, ni, k int) []byte {
 			body := n.body()
 			n.children, n.encap, n.raw = nil, 0, nil
 			n.content = ff(len(body))
+		case 14, 15, 16: // 1, 2, 3 zero bytes prepended to the content (padded integers / scalars / strings)
+			body := n.body()
+			k := k - len(replacements) - len(contentLens) - 13
+			n.children, n.encap, n.raw = nil, 0, nil
+			n.content = append(make([]byte, k), body...)
+		case 17: // 0xff prepended
+			body := n.body()
+			n.children, n.encap, n.raw = nil, 0, nil
+			n.content = append([]byte{0xff}, body...)
+		case 18: // two zero bytes appended
+			body := n.body()
+			n.children, n.encap, n.raw = nil, 0, nil
+			n.content = append(append([]byte{}, body...), 0, 0)
+		case 19, 20, 21, 22, 23, 24, 25: // BER segmented (constructed) form of a primitive string, well formed or with a foreign child
+			if n.cons && n.encap == 0 {
+				return nil
+			}
+			body := n.body()
+			n.children, n.encap, n.raw = nil, 0, nil
+			h := len(body) / 2
+			seg := func(b []byte) []byte { return append(append([]byte{0x04}, derLen(len(b))...), b...) }
+			var inner []byte
+			switch k - len(replacements) - len(contentLens) {
+			case 19: // two OCTET STRING segments
+				inner = append(seg(body[:h]), seg(body[h:])...)
+			case 20: // one segment
+				inner = seg(body)
+			case 21: // a NULL after the segments
+				inner = append(append(seg(body[:h]), seg(body[h:])...), 0x05, 0x00)
+			case 22: // an INTEGER between the segments
+				inner = append(append(seg(body[:h]), 0x02, 0x01, 0x00), seg(body[h:])...)
+			case 23: // a nested constructed OCTET STRING
+				in := seg(body[h:])
+				inner = append(seg(body[:h]), append(append([]byte{0x24}, derLen(len(in))...), in...)...)
+			case 24: // an empty segment and a BOOLEAN
+				inner = append(append(seg(nil), seg(body)...), 0x01, 0x01, 0xff)
+			case 25: // segments followed by an end-of-contents pair inside a definite length
+				inner = append(append(seg(body[:h]), seg(body[h:])...), 0x00, 0x00)
+			}
+			n.tag[0] |= 0x20
+			n.cons = true
+			n.content = inner
+			if (k-len(replacements)-len(contentLens))%2 == 1 {
+				n.lenForm = 3 // indefinite length for the odd variants
+			}
 		}
 	}
 	return t.encode()
